@@ -39,7 +39,7 @@ META = {
     "design_ref": "7/C42",
     "shards": {"quick": 3, "thorough": 16},
     "budget_s": {"quick": 70, "thorough": 420},
-    "min_evals": {"quick": 90, "thorough": 4000},
+    "min_evals": {"quick": 70, "thorough": 2500},
     "deciding": ["capture.roundtrip", "capture.autograph", "capture.decompose", "capture.mcm"],
     "rule": "G-PROG programs of depth ≤ 3 with dynamic arguments (x, y: float, n: int); distinct = fingerprint of (program, rendering); "
             "non-trivial = ≥ 1 operator recorded inside a control-flow construct",
@@ -322,8 +322,8 @@ def run(ctx):
         sys.path.insert(0, workdir)
     if qp.capture.enabled():
         qp.capture.disable()
-    n = ctx.n(60, 5600)
-    nm = ctx.n(36, 3000)
+    n = ctx.n(45, 2400)
+    nm = ctx.n(30, 1600)
     im = 0
     for i in range(n):
         if not ctx.more():
